@@ -175,10 +175,16 @@ class Build:
 
 def make_targets(targets, timeout=1500):
     """Full .vo build of the given targets (never -vos)."""
-    regen_coqproject()
+    import fcntl
     lock = COQ / ".lock"
-    cmd = ["flock", str(lock), "make", "-j", str(NCPU), "-k"] + targets
-    return sh(cmd, timeout=timeout, cwd=COQ)
+    with open(lock, "w") as lf:
+        fcntl.flock(lf, fcntl.LOCK_EX)
+        try:
+            regen_coqproject()
+            cmd = ["make", "-j", str(NCPU), "-k"] + targets
+            return sh(cmd, timeout=timeout, cwd=COQ)
+        finally:
+            fcntl.flock(lf, fcntl.LOCK_UN)
 
 
 def build_property(pid: str, extra_dirs=()) -> Build:
